@@ -220,7 +220,11 @@ Qed.
 
 Lemma owf_step acc s st : owf s -> owf (obj_step acc s st).
 Proof.
-  intros (Hh & Hs & Ht). destruct st as [su cb ss mut | t r |]; cbn [obj_step]; [| split; [| split]; assumption | split; [| split]; assumption].
+  intros (Hh & Hs & Ht). destruct st as [su cb ss mut | t r | t r |]; cbn [obj_step];
+    [| split; [| split]; assumption | | split; [| split]; assumption].
+  2:{ split; [exact Hh |]. split; [exact Hs |]. unfold obj_supp. cbn [ot_stored ot_heap].
+      intros l E c Ic. destruct (ot_stored s) as [l0|] eqn:E0; [| discriminate]. cbn [option_map] in E.
+      injection E as <-. apply filter_In in Ic. destruct Ic as [Ic _]. exact (Ht l0 eq_refl c Ic). }
   destruct (obj_encode_facts su cb ss mut acc s) as (cells & E1 & E2 & _ & _ & N & RG & _ & _ & _ & W).
   set (s' := obj_encode su cb ss mut acc s) in *.
   assert (LE : oh_next (ot_heap s) <= oh_next (ot_heap s')) by lia.
@@ -240,7 +244,7 @@ Lemma step_keeps_saved acc s st k l :
   nth_error (ot_saved (obj_step acc s st)) k = Some l /\
   map (deref (ot_heap (obj_step acc s st))) l = map (deref (ot_heap s)) l.
 Proof.
-  intros (Hh & Hs & Ht) E. destruct st as [su cb ss mut | t r |]; cbn [obj_step]; try (split; [exact E | reflexivity]).
+  intros (Hh & Hs & Ht) E. destruct st as [su cb ss mut | t r | t r |]; cbn [obj_step]; try (split; [exact E | reflexivity]).
   destruct (obj_encode_facts su cb ss mut acc s) as (cells & E1 & _ & _ & _ & _ & _ & F & _).
   split.
   - rewrite E1. rewrite nth_error_app1; [exact E |]. apply nth_error_Some. congruence.
@@ -266,7 +270,7 @@ Definition saved_sep (s : otree) : Prop :=
 
 Lemma saved_sep_step acc s st : owf s -> saved_sep s -> saved_sep (obj_step acc s st).
 Proof.
-  intros (Hh & Hs & Ht) Sep. destruct st as [su cb ss mut | t r |]; cbn [obj_step]; try exact Sep.
+  intros (Hh & Hs & Ht) Sep. destruct st as [su cb ss mut | t r | t r |]; cbn [obj_step]; try exact Sep.
   destruct (obj_encode_facts su cb ss mut acc s) as (cells & E1 & _ & _ & _ & _ & RG & _).
   intros i j li lj Lt Ei Ej c Ici Icj. rewrite E1 in Ei, Ej.
   assert (Lj : (j < length (ot_saved s ++ [cells]))%nat) by (apply nth_error_Some; congruence).
